@@ -12,12 +12,18 @@
 (* extent (>= 1 character) is emitted: the property does not say how much  *)
 (* an error swallows, so the spec leaves it nondeterministic.              *)
 (*                                                                         *)
+(* Round 3: the Int token carries a signed 64-bit value (module            *)
+(* SyltLexNum).  A digit run is matched as a whole by the int class; when   *)
+(* its value does not fit, the run - exactly the run - is an Error token.  *)
+(* SyltLexNum also states the value of every Int and Float token; the      *)
+(* trace specification compares recorded values with it.                   *)
+(*                                                                         *)
 (* Positions are derived from the TEXT (line = 1 + newlines before the     *)
 (* character, column = distance to the previous newline), never from any   *)
 (* running counter, so the spec is independent of how the implementation   *)
 (* keeps count.                                                            *)
 (***************************************************************************)
-EXTENDS Naturals, Sequences, FiniteSets, TLC
+EXTENDS Naturals, Sequences, FiniteSets, TLC, SyltLexNum
 
 CONSTANTS Alphabet,     \* sequence of one-character strings (the model's universe of characters)
           MaxLen        \* texts of length 0..MaxLen are explored by the generator spec
@@ -131,13 +137,17 @@ MatchLens(t, p) == {n \in 1..Rem(t, p) : Matches(t, p, n)}
 
 SetMax(S) == CHOOSE x \in S : \A y \in S : y <= x
 
-(* Kind of the n-character token at p, by the priority order for equal lengths *)
+(* Kind of the n-character token at p, by the priority order for equal lengths.
+   Round 3: the documented Int token carries a signed 64-bit value; the longest match is decided by the
+   regular expressions alone (the whole digit run), and a run whose value does not fit (SyltLexNum!IntFits,
+   decided symbolically on the decimal string) is an Error token with exactly that extent - it is not
+   re-lexed as shorter numbers. *)
 KindOf(t, p, n) ==
     CASE IsFixed(t, p, n)    -> "fx"
       [] IsBoolNil(t, p, n)  -> IF Sub(t, p, n) = "nil" THEN "nil" ELSE "bool"
       [] IsIdent(t, p, n)    -> "id"
       [] IsFloat(t, p, n)    -> "float"
-      [] IsInt(t, p, n)      -> "int"
+      [] IsInt(t, p, n)      -> IF IntFits(Sub(t, p, n)) THEN "int" ELSE "err"
       [] IsString(t, p, n)   -> "str"
       [] IsComment(t, p, n)  -> "comment"
       [] IsNewline(t, p, n)  -> "nl"
